@@ -415,6 +415,16 @@ func (s *Sorts) typeTag(t types.Type) string {
 		return "slice"
 	case *types.Array:
 		return fmt.Sprintf("arr%d_%s", u.Len(), s.typeTag(u.Elem()))
+	case *types.Interface:
+		// values of different interface types live in different heaps (a []Checker and a
+		// []Response can never share a backing array)
+		if n, ok := t.(*types.Named); ok {
+			return "iface_" + sanitize(shortTypeName(n))
+		}
+		if u.NumMethods() == 0 {
+			return "iface_any"
+		}
+		return "iface_" + sanitize(u.String())
 	}
 	return sortTag(s.SortOf(t))
 }
